@@ -1,5 +1,1193 @@
-(* Proofs/FlagsSim.v — under construction *)
+(* Proofs/FlagsSim.v — property C17: tracing and warnings are transparent.
+
+   A two-run simulation: two interpreter states that agree on everything
+   except the two flags and the Trace/Warning records waiting in the output
+   queue ([sim]) stay so related under every primitive, evaluator and host
+   call, and every such computation returns the same result in both runs
+   ([respects]).  Lifted to [step] and to whole host-call histories, this says
+   that the four flag configurations produce the same printed output, input
+   requests, errors and final state; only Trace/Warning records differ. *)
 From Coq Require Import List NArith ZArith Bool Lia.
+From Coq Require String.
 From Abasic Require Import Model.Bytes Model.Num Model.Token Model.Data Model.Lexer Gen.Tables
-     Model.State Model.Eval Model.Interp Proofs.Monad Proofs.Frames.
+     Model.State Model.Eval Model.Interp Proofs.Monad Proofs.Frames Proofs.StoreProofs.
 Import ListNotations.
+
+(* ------------------------------------------------------------------ *)
+(* The relation *)
+
+Definition keep_output (o : output) : bool :=
+  match o with OTrace _ | OWarning _ _ => false | _ => true end.
+
+Definition erase (l : list output) : list output := filter keep_output l.
+
+(* states equal up to the two flags and up to Trace/Warning records in the
+   pending output *)
+Definition sim (s t : interp) : Prop :=
+  st_toks s = st_toks t /\ st_keys s = st_keys t /\ immediate s = immediate t /\ loc s = loc t
+  /\ breakpoint s = breakpoint t /\ stack s = stack t /\ loops s = loops t /\ data_it s = data_it t
+  /\ functions s = functions t /\ input s = input t /\ state s = state t /\ rng s = rng t
+  /\ variables s = variables t /\ arrays s = arrays t /\ pow_oracle s = pow_oracle t /\ reads s = reads t
+  /\ erase (outputs s) = erase (outputs t).
+
+Definition respects {A} (m : M A) : Prop :=
+  forall s t, sim s t -> fst (m s) = fst (m t) /\ sim (snd (m s)) (snd (m t)).
+
+(* the two-computation generalisation, needed where the two runs take
+   different branches on a flag *)
+Definition rel2 {A} (m1 m2 : M A) : Prop :=
+  forall s t, sim s t -> fst (m1 s) = fst (m2 t) /\ sim (snd (m1 s)) (snd (m2 t)).
+
+Lemma respects_rel2 {A} (m : M A) : respects m <-> rel2 m m.
+Proof. split; intros H; exact H. Qed.
+
+Lemma sim_refl s : sim s s.
+Proof. unfold sim; repeat split; reflexivity. Qed.
+
+Lemma sim_sym s t : sim s t -> sim t s.
+Proof. unfold sim; intros H; decompose [and] H; repeat split; symmetry; assumption. Qed.
+
+Lemma sim_trans s t u : sim s t -> sim t u -> sim s u.
+Proof.
+  unfold sim; intros H1 H2; decompose [and] H1; decompose [and] H2;
+    repeat split; etransitivity; eassumption.
+Qed.
+
+(* projections *)
+Lemma sim_st_toks s t : sim s t -> st_toks s = st_toks t. Proof. unfold sim; tauto. Qed.
+Lemma sim_st_keys s t : sim s t -> st_keys s = st_keys t. Proof. unfold sim; tauto. Qed.
+Lemma sim_immediate s t : sim s t -> immediate s = immediate t. Proof. unfold sim; tauto. Qed.
+Lemma sim_loc s t : sim s t -> loc s = loc t. Proof. unfold sim; tauto. Qed.
+Lemma sim_breakpoint s t : sim s t -> breakpoint s = breakpoint t. Proof. unfold sim; tauto. Qed.
+Lemma sim_stack s t : sim s t -> stack s = stack t. Proof. unfold sim; tauto. Qed.
+Lemma sim_loops s t : sim s t -> loops s = loops t. Proof. unfold sim; tauto. Qed.
+Lemma sim_data_it s t : sim s t -> data_it s = data_it t. Proof. unfold sim; tauto. Qed.
+Lemma sim_functions s t : sim s t -> functions s = functions t. Proof. unfold sim; tauto. Qed.
+Lemma sim_input s t : sim s t -> input s = input t. Proof. unfold sim; tauto. Qed.
+Lemma sim_state s t : sim s t -> state s = state t. Proof. unfold sim; tauto. Qed.
+Lemma sim_rng s t : sim s t -> rng s = rng t. Proof. unfold sim; tauto. Qed.
+Lemma sim_variables s t : sim s t -> variables s = variables t. Proof. unfold sim; tauto. Qed.
+Lemma sim_arrays s t : sim s t -> arrays s = arrays t. Proof. unfold sim; tauto. Qed.
+Lemma sim_pow_oracle s t : sim s t -> pow_oracle s = pow_oracle t. Proof. unfold sim; tauto. Qed.
+Lemma sim_reads s t : sim s t -> reads s = reads t. Proof. unfold sim; tauto. Qed.
+Lemma sim_outputs s t : sim s t -> erase (outputs s) = erase (outputs t). Proof. unfold sim; tauto. Qed.
+
+Lemma erase_app a b : erase (a ++ b) = erase a ++ erase b.
+Proof. apply filter_app. Qed.
+
+(* rewrite every compared projection of [t] into the projection of [s] *)
+Ltac sim_rw H :=
+  rewrite <- ?(sim_st_toks _ _ H), <- ?(sim_st_keys _ _ H), <- ?(sim_immediate _ _ H),
+          <- ?(sim_loc _ _ H), <- ?(sim_breakpoint _ _ H), <- ?(sim_stack _ _ H),
+          <- ?(sim_loops _ _ H), <- ?(sim_data_it _ _ H), <- ?(sim_functions _ _ H),
+          <- ?(sim_input _ _ H), <- ?(sim_state _ _ H), <- ?(sim_rng _ _ H),
+          <- ?(sim_variables _ _ H), <- ?(sim_arrays _ _ H), <- ?(sim_pow_oracle _ _ H),
+          <- ?(sim_reads _ _ H).
+
+Ltac sim_fields :=
+  cbn [st_toks st_keys immediate loc breakpoint stack loops data_it functions input outputs state
+       rng variables arrays enable_warnings enable_tracing pow_oracle reads
+       set_store set_immediate set_loc set_breakpoint set_stack set_loops set_data_it set_functions
+       set_input set_outputs set_state set_rng set_variables set_arrays set_flags set_oracle set_reads].
+
+Ltac sim_out H :=
+  first [ exact (sim_outputs _ _ H)
+        | rewrite !erase_app; f_equal; exact (sim_outputs _ _ H) ].
+
+(* goal [sim (f s) (f t)] for [f] built from setters, given [H : sim s t] *)
+Ltac sim_solve H :=
+  cbv beta zeta;
+  unfold store_first, store_set, store_has, store_after, imm_reset;
+  cbv beta zeta;
+  sim_rw H;
+  repeat match goal with |- context [match ?x with _ => _ end] => destruct x end;
+  unfold sim; sim_fields; sim_rw H;
+  repeat split; first [reflexivity | sim_out H].
+
+(* goal [f s = f t] for a compared observation [f] *)
+Ltac sim_get H :=
+  cbv beta; unfold store_first, store_has, store_after; sim_rw H; reflexivity.
+
+(* setter congruence *)
+Lemma sim_set_store a b s t : sim s t -> sim (set_store a b s) (set_store a b t).
+Proof. intros H; sim_solve H. Qed.
+Lemma sim_set_immediate v s t : sim s t -> sim (set_immediate v s) (set_immediate v t).
+Proof. intros H; sim_solve H. Qed.
+Lemma sim_set_loc v s t : sim s t -> sim (set_loc v s) (set_loc v t).
+Proof. intros H; sim_solve H. Qed.
+Lemma sim_set_breakpoint v s t : sim s t -> sim (set_breakpoint v s) (set_breakpoint v t).
+Proof. intros H; sim_solve H. Qed.
+Lemma sim_set_stack v s t : sim s t -> sim (set_stack v s) (set_stack v t).
+Proof. intros H; sim_solve H. Qed.
+Lemma sim_set_loops v s t : sim s t -> sim (set_loops v s) (set_loops v t).
+Proof. intros H; sim_solve H. Qed.
+Lemma sim_set_data_it v s t : sim s t -> sim (set_data_it v s) (set_data_it v t).
+Proof. intros H; sim_solve H. Qed.
+Lemma sim_set_functions v s t : sim s t -> sim (set_functions v s) (set_functions v t).
+Proof. intros H; sim_solve H. Qed.
+Lemma sim_set_input v s t : sim s t -> sim (set_input v s) (set_input v t).
+Proof. intros H; sim_solve H. Qed.
+Lemma sim_set_state v s t : sim s t -> sim (set_state v s) (set_state v t).
+Proof. intros H; sim_solve H. Qed.
+Lemma sim_set_rng v s t : sim s t -> sim (set_rng v s) (set_rng v t).
+Proof. intros H; sim_solve H. Qed.
+Lemma sim_set_variables v s t : sim s t -> sim (set_variables v s) (set_variables v t).
+Proof. intros H; sim_solve H. Qed.
+Lemma sim_set_arrays v s t : sim s t -> sim (set_arrays v s) (set_arrays v t).
+Proof. intros H; sim_solve H. Qed.
+Lemma sim_set_oracle v s t : sim s t -> sim (set_oracle v s) (set_oracle v t).
+Proof. intros H; sim_solve H. Qed.
+Lemma sim_set_reads v s t : sim s t -> sim (set_reads v s) (set_reads v t).
+Proof. intros H; sim_solve H. Qed.
+Lemma sim_store_set n v s t : sim s t -> sim (store_set n v s) (store_set n v t).
+Proof. intros H; sim_solve H. Qed.
+
+(* the flags are not compared at all *)
+Lemma sim_set_flags w1 b1 w2 b2 s t : sim s t -> sim (set_flags w1 b1 s) (set_flags w2 b2 t).
+Proof. intros H; sim_solve H. Qed.
+
+Lemma sim_set_flags_l w b s : sim s (set_flags w b s).
+Proof. unfold sim; sim_fields; repeat split; reflexivity. Qed.
+
+(* replacing the whole queue by equal-after-erasure queues *)
+Lemma sim_set_outputs a b s t : sim s t -> erase a = erase b -> sim (set_outputs a s) (set_outputs b t).
+Proof.
+  intros H Hab. unfold sim; sim_fields; sim_rw H. repeat split; first [reflexivity | exact Hab].
+Qed.
+
+(* appending the same record on both sides (kept or dropped) *)
+Lemma sim_push_both l s t :
+  sim s t -> sim (set_outputs (outputs s ++ l) s) (set_outputs (outputs t ++ l) t).
+Proof.
+  intros H. apply sim_set_outputs; [exact H|]. rewrite !erase_app. f_equal. exact (sim_outputs _ _ H).
+Qed.
+
+(* appending dropped records on one side only *)
+Lemma sim_push_noise l s : erase l = [] -> sim s (set_outputs (outputs s ++ l) s).
+Proof.
+  intros Hl. unfold sim; sim_fields. repeat split; try reflexivity.
+  rewrite erase_app, Hl, app_nil_r. reflexivity.
+Qed.
+
+Lemma sim_push_dropped_l o s t :
+  keep_output o = false -> sim s t -> sim (set_outputs (outputs s ++ [o]) s) t.
+Proof.
+  intros Ho H. eapply sim_trans; [|exact H]. apply sim_sym, sim_push_noise.
+  unfold erase; cbn [filter]. rewrite Ho. reflexivity.
+Qed.
+
+Lemma sim_push_dropped_r o s t :
+  keep_output o = false -> sim s t -> sim s (set_outputs (outputs t ++ [o]) t).
+Proof. intros Ho H. apply sim_sym, sim_push_dropped_l; [exact Ho|apply sim_sym; exact H]. Qed.
+
+(* ------------------------------------------------------------------ *)
+(* Structural rules *)
+
+Lemma respects_ret {A} (a : A) : respects (ret a).
+Proof. intros s t H; split; [reflexivity|exact H]. Qed.
+Lemma respects_fail {A} e : respects (@fail A e).
+Proof. intros s t H; split; [reflexivity|exact H]. Qed.
+Lemma respects_fail_at {A} e l : respects (@fail_at A e l).
+Proof. intros s t H; split; [reflexivity|exact H]. Qed.
+Lemma respects_panic {A} p : respects (@panic A p).
+Proof. intros s t H; split; [reflexivity|exact H]. Qed.
+Lemma respects_out_of_fuel {A} : respects (@out_of_fuel A).
+Proof. intros s t H; split; [reflexivity|exact H]. Qed.
+Lemma respects_oracle_miss {A} : respects (@oracle_miss A).
+Proof. intros s t H; split; [reflexivity|exact H]. Qed.
+Lemma respects_lift_res {A} (r : res A) : respects (lift_res r).
+Proof. intros s t H; split; [reflexivity|exact H]. Qed.
+Lemma respects_const {A} (r : res A) : respects (fun s => (r, s)).
+Proof. intros s t H; split; [reflexivity|exact H]. Qed.
+
+Lemma respects_get {A} (f : interp -> A) :
+  (forall s t, sim s t -> f s = f t) -> respects (get f).
+Proof. intros Hf s t H; unfold get; cbn [fst snd]. split; [rewrite (Hf s t H); reflexivity|exact H]. Qed.
+
+Lemma respects_modify f :
+  (forall s t, sim s t -> sim (f s) (f t)) -> respects (modify f).
+Proof. intros Hf s t H; unfold modify; cbn [fst snd]. split; [reflexivity|apply Hf; exact H]. Qed.
+
+Lemma rel2_bind {A B} (m1 m2 : M A) (f1 f2 : A -> M B) :
+  rel2 m1 m2 -> (forall a, rel2 (f1 a) (f2 a)) -> rel2 (bind m1 f1) (bind m2 f2).
+Proof.
+  intros Hm Hf s t H. destruct (Hm s t H) as [E S]. unfold bind.
+  destruct (m1 s) as [[a|e l|p| |] s1]; destruct (m2 t) as [[a'|e' l'|p'| |] t1];
+    cbn [fst snd] in E, S |- *; try discriminate E.
+  - injection E as ->. apply Hf; exact S.
+  - injection E as -> ->. split; [reflexivity|exact S].
+  - injection E as ->. split; [reflexivity|exact S].
+  - split; [reflexivity|exact S].
+  - split; [reflexivity|exact S].
+Qed.
+
+Lemma respects_bind {A B} (m : M A) (f : A -> M B) :
+  respects m -> (forall a, respects (f a)) -> respects (bind m f).
+Proof. intros Hm Hf. apply rel2_bind; assumption. Qed.
+
+Lemma respects_repeat {S T} n (body : S -> M (S + T)) :
+  (forall acc, respects (body acc)) -> forall acc, respects (repeat_m n body acc).
+Proof.
+  intros Hb. induction n as [|n IH]; intros acc; cbn [repeat_m].
+  - apply respects_out_of_fuel.
+  - apply respects_bind; [apply Hb|]. intros [acc'|r]; [apply IH | apply respects_ret].
+Qed.
+
+(* "noise": a computation that always succeeds and only moves the state
+   within its [sim] class (it may append Trace/Warning records).  Any two
+   noise computations are related, whichever branches they take. *)
+Definition noise (m : M unit) : Prop := forall s, fst (m s) = Ok tt /\ sim s (snd (m s)).
+
+Lemma noise_rel2 m1 m2 : noise m1 -> noise m2 -> rel2 m1 m2.
+Proof.
+  intros H1 H2 s t H. destruct (H1 s) as [E1 S1]. destruct (H2 t) as [E2 S2].
+  split; [congruence|].
+  eapply sim_trans; [apply sim_sym; exact S1|]. eapply sim_trans; [exact H|exact S2].
+Qed.
+
+Lemma noise_respects m : noise m -> respects m.
+Proof. intros H; apply noise_rel2; exact H. Qed.
+
+Lemma noise_ret : noise (ret tt).
+Proof. intros s; split; [reflexivity|apply sim_refl]. Qed.
+
+(* reading a flag: the continuation may be entered with different booleans *)
+Lemma respects_get_warnings {B} (f : bool -> M B) :
+  (forall w1 w2, rel2 (f w1) (f w2)) -> respects (bind (get enable_warnings) f).
+Proof. intros Hf s t H. unfold bind, get. apply Hf; exact H. Qed.
+
+Lemma respects_get_tracing {B} (f : bool -> M B) :
+  (forall w1 w2, rel2 (f w1) (f w2)) -> respects (bind (get enable_tracing) f).
+Proof. intros Hf s t H. unfold bind, get. apply Hf; exact H. Qed.
+
+(* ------------------------------------------------------------------ *)
+(* The walker.  Every case is guarded by the syntactic shape of the goal, so
+   that no rule is ever unified against the body of an evaluator. *)
+
+Create HintDb resp.
+
+Ltac resp_leaf :=
+  first [ match goal with H : respects ?m |- respects ?m => exact H end
+        | match goal with H : forall a, respects (@?m a) |- respects ?m' => apply H end
+        | solve [trivial with resp nocore] ].
+
+Ltac rstep :=
+  lazymatch goal with
+  | |- respects (ret _) => apply respects_ret
+  | |- respects (fail _) => apply respects_fail
+  | |- respects (fail_at _ _) => apply respects_fail_at
+  | |- respects (panic _) => apply respects_panic
+  | |- respects out_of_fuel => apply respects_out_of_fuel
+  | |- respects oracle_miss => apply respects_oracle_miss
+  | |- respects (lift_res _) => apply respects_lift_res
+  | |- respects (bind (get enable_warnings) _) => fail "flag read"
+  | |- respects (bind (get enable_tracing) _) => fail "flag read"
+  | |- respects (bind _ _) => apply respects_bind; [| intro]
+  | |- respects (repeat_m _ _ _) => apply respects_repeat; intro
+  | |- respects (get _) =>
+      apply respects_get; let H := fresh "Hsim" in intros ? ? H; sim_get H
+  | |- respects (modify _) =>
+      apply respects_modify; let H := fresh "Hsim" in intros ? ? H; sim_solve H
+  | |- respects (fun s => (_, s)) => apply respects_const
+  | |- respects (if ?b then _ else _) => destruct b
+  | |- respects (let '(_, _) := ?x in _) => destruct x
+  | |- respects (match ?x with _ => _ end) => destruct x
+  | |- respects _ => resp_leaf
+  end.
+
+Ltac rwalk := repeat rstep.
+
+(* ------------------------------------------------------------------ *)
+(* Primitives of State.v *)
+
+Lemma respects_tokens_for_line l : respects (tokens_for_line l).
+Proof.
+  intros s t H. unfold tokens_for_line. sim_rw H. destruct l as [n|].
+  - destruct (toks_get n (st_toks s)); split; first [reflexivity|exact H].
+  - split; [reflexivity|exact H].
+Qed.
+#[global] Hint Extern 0 (respects (tokens_for_line _)) => apply respects_tokens_for_line : resp.
+
+Lemma respects_cur_tokens : respects cur_tokens.
+Proof. unfold cur_tokens; rwalk. Qed.
+#[global] Hint Extern 0 (respects cur_tokens) => apply respects_cur_tokens : resp.
+
+Lemma respects_peek : respects peek_next_token.
+Proof. unfold peek_next_token; rwalk. Qed.
+#[global] Hint Extern 0 (respects peek_next_token) => apply respects_peek : resp.
+
+Lemma respects_has_next : respects has_next_token.
+Proof. unfold has_next_token; rwalk. Qed.
+#[global] Hint Extern 0 (respects has_next_token) => apply respects_has_next : resp.
+
+Lemma respects_advance : respects advance.
+Proof. unfold advance; rwalk. Qed.
+#[global] Hint Extern 0 (respects advance) => apply respects_advance : resp.
+
+Lemma respects_next_token : respects next_token.
+Proof. unfold next_token; rwalk. Qed.
+#[global] Hint Extern 0 (respects next_token) => apply respects_next_token : resp.
+
+Lemma respects_next_unwrapped : respects next_unwrapped_token.
+Proof. unfold next_unwrapped_token; rwalk. Qed.
+#[global] Hint Extern 0 (respects next_unwrapped_token) => apply respects_next_unwrapped : resp.
+
+Lemma respects_expect e : respects (expect_next_token e).
+Proof. unfold expect_next_token; rwalk. Qed.
+#[global] Hint Extern 0 (respects (expect_next_token _)) => apply respects_expect : resp.
+
+Lemma respects_accept e : respects (accept_next_token e).
+Proof. unfold accept_next_token; rwalk. Qed.
+#[global] Hint Extern 0 (respects (accept_next_token _)) => apply respects_accept : resp.
+
+Lemma respects_peek_is e : respects (peek_is e).
+Proof. unfold peek_is; rwalk. Qed.
+#[global] Hint Extern 0 (respects (peek_is _)) => apply respects_peek_is : resp.
+
+Lemma respects_try {A} (f : token -> option A) : respects (try_next_token f).
+Proof. unfold try_next_token; rwalk. Qed.
+#[global] Hint Extern 0 (respects (try_next_token _)) => apply respects_try : resp.
+
+Lemma respects_discard : respects discard_remaining_tokens.
+Proof. unfold discard_remaining_tokens; rwalk. Qed.
+#[global] Hint Extern 0 (respects discard_remaining_tokens) => apply respects_discard : resp.
+
+Lemma respects_rewind_loop i e : respects (rewind_loop i e).
+Proof. induction i as [|i IH]; cbn [rewind_loop]; rwalk. Qed.
+#[global] Hint Extern 0 (respects (rewind_loop _ _)) => apply respects_rewind_loop : resp.
+
+Lemma respects_rewind e : respects (rewind_before_token e).
+Proof. unfold rewind_before_token; rwalk. Qed.
+#[global] Hint Extern 0 (respects (rewind_before_token _)) => apply respects_rewind : resp.
+
+Lemma respects_get_line_number : respects get_line_number.
+Proof. unfold get_line_number; rwalk. Qed.
+#[global] Hint Extern 0 (respects get_line_number) => apply respects_get_line_number : resp.
+
+Lemma respects_set_imm ts : respects (set_and_goto_immediate_line ts).
+Proof. unfold set_and_goto_immediate_line; rwalk. Qed.
+#[global] Hint Extern 0 (respects (set_and_goto_immediate_line _)) => apply respects_set_imm : resp.
+
+Lemma respects_remove_loop sym : respects (remove_loop_with_name sym).
+Proof. unfold remove_loop_with_name; rwalk. Qed.
+#[global] Hint Extern 0 (respects (remove_loop_with_name _)) => apply respects_remove_loop : resp.
+
+Lemma respects_program_break : respects program_break_at_current_location.
+Proof. unfold program_break_at_current_location; rwalk. Qed.
+#[global] Hint Extern 0 (respects program_break_at_current_location) => apply respects_program_break : resp.
+
+Lemma respects_continue_bp : respects continue_from_breakpoint.
+Proof. unfold continue_from_breakpoint; rwalk. Qed.
+#[global] Hint Extern 0 (respects continue_from_breakpoint) => apply respects_continue_bp : resp.
+
+Lemma respects_variables_set n v : respects (variables_set n v).
+Proof. unfold variables_set; rwalk. Qed.
+#[global] Hint Extern 0 (respects (variables_set _ _)) => apply respects_variables_set : resp.
+
+Lemma respects_variables_get n : respects (variables_get n).
+Proof. unfold variables_get; rwalk. Qed.
+#[global] Hint Extern 0 (respects (variables_get _)) => apply respects_variables_get : resp.
+
+Lemma respects_start_loop sym a b c : respects (start_loop sym a b c).
+Proof. unfold start_loop; rwalk. Qed.
+#[global] Hint Extern 0 (respects (start_loop _ _ _ _)) => apply respects_start_loop : resp.
+
+Lemma respects_end_loop sym : respects (end_loop sym).
+Proof. unfold end_loop; rwalk. Qed.
+#[global] Hint Extern 0 (respects (end_loop _)) => apply respects_end_loop : resp.
+
+Lemma respects_reset_data : respects reset_data_cursor.
+Proof. unfold reset_data_cursor; rwalk. Qed.
+#[global] Hint Extern 0 (respects reset_data_cursor) => apply respects_reset_data : resp.
+
+Lemma respects_program_end : respects program_end.
+Proof. unfold program_end; rwalk. Qed.
+#[global] Hint Extern 0 (respects program_end) => apply respects_program_end : resp.
+
+Lemma respects_reset_runtime : respects reset_runtime_state.
+Proof. unfold reset_runtime_state; rwalk. Qed.
+#[global] Hint Extern 0 (respects reset_runtime_state) => apply respects_reset_runtime : resp.
+
+Lemma respects_run_from_first : respects run_from_first_numbered_line.
+Proof. unfold run_from_first_numbered_line; rwalk. Qed.
+#[global] Hint Extern 0 (respects run_from_first_numbered_line) => apply respects_run_from_first : resp.
+
+Lemma respects_goto n : respects (goto_line_number n).
+Proof. unfold goto_line_number; rwalk. Qed.
+#[global] Hint Extern 0 (respects (goto_line_number _)) => apply respects_goto : resp.
+
+Lemma respects_gosub n : respects (gosub_line_number n).
+Proof. unfold gosub_line_number; rwalk. Qed.
+#[global] Hint Extern 0 (respects (gosub_line_number _)) => apply respects_gosub : resp.
+
+Lemma respects_return : respects return_to_last_gosub.
+Proof. unfold return_to_last_gosub; rwalk. Qed.
+#[global] Hint Extern 0 (respects return_to_last_gosub) => apply respects_return : resp.
+
+Lemma respects_define_function n a : respects (define_function n a).
+Proof. unfold define_function; rwalk. Qed.
+#[global] Hint Extern 0 (respects (define_function _ _)) => apply respects_define_function : resp.
+
+Lemma respects_push_fn n b : respects (push_function_call n b).
+Proof. unfold push_function_call; rwalk. Qed.
+#[global] Hint Extern 0 (respects (push_function_call _ _)) => apply respects_push_fn : resp.
+
+Lemma respects_pop_fn : respects pop_function_call.
+Proof. unfold pop_function_call; rwalk. Qed.
+#[global] Hint Extern 0 (respects pop_function_call) => apply respects_pop_fn : resp.
+
+Lemma respects_find_var n : respects (find_variable_value_in_stack n).
+Proof. unfold find_variable_value_in_stack; rwalk. Qed.
+#[global] Hint Extern 0 (respects (find_variable_value_in_stack _)) => apply respects_find_var : resp.
+
+Lemma respects_next_data : respects next_data_element.
+Proof.
+  intros s t H. unfold next_data_element. sim_rw H.
+  destruct (data_it s) as [d|].
+  - destruct (data_next _ d) as [e d']; cbn [fst snd].
+    split; [reflexivity|apply sim_set_data_it; exact H].
+  - destruct (data_chunks (st_keys s) (st_toks s)) as [cs|e l|p| |];
+      try (split; [reflexivity|exact H]).
+    destruct (data_next _ _) as [e d']; cbn [fst snd].
+    split; [reflexivity|apply sim_set_data_it; exact H].
+Qed.
+#[global] Hint Extern 0 (respects next_data_element) => apply respects_next_data : resp.
+
+Lemma respects_is_else : respects is_else_of_then_clause.
+Proof. unfold is_else_of_then_clause; rwalk. Qed.
+#[global] Hint Extern 0 (respects is_else_of_then_clause) => apply respects_is_else : resp.
+
+Lemma respects_next_line : respects next_line.
+Proof. unfold next_line; rwalk. Qed.
+#[global] Hint Extern 0 (respects next_line) => apply respects_next_line : resp.
+
+Lemma respects_set_numbered_line n ts : respects (set_numbered_line n ts).
+Proof. unfold set_numbered_line; rwalk. Qed.
+#[global] Hint Extern 0 (respects (set_numbered_line _ _)) => apply respects_set_numbered_line : resp.
+
+Lemma respects_arrays_create n i : respects (arrays_create n i).
+Proof. unfold arrays_create; rwalk. Qed.
+#[global] Hint Extern 0 (respects (arrays_create _ _)) => apply respects_arrays_create : resp.
+
+Lemma respects_maybe_default n d : respects (maybe_create_default_array n d).
+Proof. unfold maybe_create_default_array; rwalk. Qed.
+#[global] Hint Extern 0 (respects (maybe_create_default_array _ _)) => apply respects_maybe_default : resp.
+
+Lemma respects_arrays_get n i : respects (arrays_get n i).
+Proof. unfold arrays_get; rwalk. Qed.
+#[global] Hint Extern 0 (respects (arrays_get _ _)) => apply respects_arrays_get : resp.
+
+Lemma respects_arrays_set n i v : respects (arrays_set n i v).
+Proof. unfold arrays_set; rwalk. Qed.
+#[global] Hint Extern 0 (respects (arrays_set _ _ _)) => apply respects_arrays_set : resp.
+
+Lemma respects_rng_rnd x : respects (rng_rnd x).
+Proof. unfold rng_rnd; rwalk. Qed.
+#[global] Hint Extern 0 (respects (rng_rnd _)) => apply respects_rng_rnd : resp.
+
+(* the same record appended in both runs: fine whether kept or dropped *)
+Lemma respects_push_output o : respects (push_output o).
+Proof.
+  unfold push_output. apply respects_modify. intros s t H. apply sim_push_both; exact H.
+Qed.
+#[global] Hint Extern 0 (respects (push_output _)) => apply respects_push_output : resp.
+
+(* ---- the places where [enable_warnings] is read ---- *)
+
+Lemma noise_warn msg : noise (warn msg).
+Proof.
+  intros s. unfold warn, bind, get, get_line_number, push_output, modify, ret.
+  destruct (enable_warnings s); cbn [fst snd].
+  - split; [reflexivity|]. apply sim_push_noise. reflexivity.
+  - split; [reflexivity|apply sim_refl].
+Qed.
+
+Lemma respects_warn msg : respects (warn msg).
+Proof. apply noise_respects, noise_warn. Qed.
+#[global] Hint Extern 0 (respects (warn _)) => apply respects_warn : resp.
+
+Lemma noise_if (b : bool) m : noise m -> noise (if b then m else ret tt).
+Proof. intros H; destruct b; [exact H|apply noise_ret]. Qed.
+
+Lemma noise_maybe_warn name : noise (maybe_warn_undeclared_array name).
+Proof.
+  intros s. unfold maybe_warn_undeclared_array.
+  rewrite bind_get, bind_get. apply noise_if, noise_warn.
+Qed.
+
+Lemma respects_maybe_warn name : respects (maybe_warn_undeclared_array name).
+Proof. apply noise_respects, noise_maybe_warn. Qed.
+#[global] Hint Extern 0 (respects (maybe_warn_undeclared_array _)) => apply respects_maybe_warn : resp.
+
+(* ------------------------------------------------------------------ *)
+(* Operators *)
+
+Lemma respects_eval_unary o v : respects (eval_unary o v).
+Proof. unfold eval_unary; rwalk. Qed.
+#[global] Hint Extern 0 (respects (eval_unary _ _)) => apply respects_eval_unary : resp.
+Lemma respects_eval_addsub o a b : respects (eval_addsub o a b).
+Proof. unfold eval_addsub; rwalk. Qed.
+#[global] Hint Extern 0 (respects (eval_addsub _ _ _)) => apply respects_eval_addsub : resp.
+Lemma respects_eval_muldiv o a b : respects (eval_muldiv o a b).
+Proof. unfold eval_muldiv; rwalk. Qed.
+#[global] Hint Extern 0 (respects (eval_muldiv _ _ _)) => apply respects_eval_muldiv : resp.
+Lemma respects_eval_eq o a b : respects (eval_eq o a b).
+Proof. unfold eval_eq; rwalk. Qed.
+#[global] Hint Extern 0 (respects (eval_eq _ _ _)) => apply respects_eval_eq : resp.
+Lemma respects_eval_and a b : respects (eval_and a b).
+Proof. unfold eval_and; rwalk. Qed.
+#[global] Hint Extern 0 (respects (eval_and _ _)) => apply respects_eval_and : resp.
+Lemma respects_eval_or a b : respects (eval_or a b).
+Proof. unfold eval_or; rwalk. Qed.
+#[global] Hint Extern 0 (respects (eval_or _ _)) => apply respects_eval_or : resp.
+Lemma respects_eval_pow a b : respects (eval_pow a b).
+Proof. unfold eval_pow; rwalk. Qed.
+#[global] Hint Extern 0 (respects (eval_pow _ _)) => apply respects_eval_pow : resp.
+Lemma respects_expect_number v : respects (expect_number v).
+Proof. unfold expect_number; rwalk. Qed.
+#[global] Hint Extern 0 (respects (expect_number _)) => apply respects_expect_number : resp.
+
+(* ------------------------------------------------------------------ *)
+(* Expressions *)
+
+Lemma populate_error_location_sim e l s t :
+  sim s t -> populate_error_location e l s = populate_error_location e l t.
+Proof.
+  intros H. unfold populate_error_location, get_data_location. sim_rw H. reflexivity.
+Qed.
+
+Section Expr.
+  Variable fuel : nat.
+  Variable rec : M value.
+  Hypothesis Hrec : respects rec.
+
+  Lemma respects_bind_arguments args : forall i n b, respects (bind_arguments rec args i n b).
+  Proof.
+    induction args as [|a args IH]; intros i n b; cbn [bind_arguments]; rwalk.
+  Qed.
+
+  Lemma respects_call_body : respects (call_body rec).
+  Proof.
+    intros s t H. unfold call_body. destruct (Hrec s t H) as [E1 S1].
+    destruct (rec s) as [[v|e l|p| |] s1]; destruct (rec t) as [[v'|e' l'|p'| |] t1];
+      cbn [fst snd] in E1, S1; try discriminate E1;
+      try (split; [exact E1|exact S1]).
+    - injection E1 as ->.
+      destruct (respects_pop_fn s1 t1 S1) as [E2 S2].
+      destruct (pop_function_call s1) as [[u|e2 l2|p2| |] s2];
+        destruct (pop_function_call t1) as [[u'|e2' l2'|p2'| |] t2];
+        cbn [fst snd] in E2, S2 |- *; try discriminate E2;
+        try (split; [reflexivity|exact S2]).
+      + injection E2 as -> ->. split; [reflexivity|exact S2].
+      + injection E2 as ->. split; [reflexivity|exact S2].
+    - injection E1 as -> ->.
+      rewrite (populate_error_location_sim e' l' s1 t1 S1).
+      destruct (respects_pop_fn s1 t1 S1) as [E2 S2].
+      destruct (pop_function_call s1) as [[u|e2 l2|p2| |] s2];
+        destruct (pop_function_call t1) as [[u'|e2' l2'|p2'| |] t2];
+        cbn [fst snd] in E2, S2 |- *; try discriminate E2;
+        try (split; [reflexivity|exact S2]).
+      + injection E2 as -> ->. split; [reflexivity|exact S2].
+      + injection E2 as ->. split; [reflexivity|exact S2].
+  Qed.
+
+  Hint Extern 0 (respects (bind_arguments _ _ _ _ _)) => apply respects_bind_arguments : resp.
+  Hint Extern 0 (respects (call_body _)) => apply respects_call_body : resp.
+
+  Lemma respects_array_index : respects (evaluate_array_index fuel rec).
+  Proof. unfold evaluate_array_index; rwalk. Qed.
+  Hint Extern 0 (respects (evaluate_array_index _ _)) => apply respects_array_index : resp.
+
+  Lemma respects_unary_arg : respects (unary_number_function_arg rec).
+  Proof. unfold unary_number_function_arg; rwalk. Qed.
+  Hint Extern 0 (respects (unary_number_function_arg _)) => apply respects_unary_arg : resp.
+
+  Lemma respects_user_function_call name : respects (user_function_call rec name).
+  Proof. unfold user_function_call; rwalk. Qed.
+  Hint Extern 0 (respects (user_function_call _ _)) => apply respects_user_function_call : resp.
+
+  Lemma respects_function_call name : respects (function_call rec name).
+  Proof. unfold function_call; rwalk. Qed.
+  Hint Extern 0 (respects (function_call _ _)) => apply respects_function_call : resp.
+
+  (* the warning block of a plain variable read: the flag only decides
+     whether a Warning record is appended before the (flag-independent) read *)
+  Lemma respects_variable_read sym :
+    respects (w <- get enable_warnings ;;
+              vs <- get variables ;;
+              (if w && negb (alist_has sym vs)
+               then warn (bs "Use of undeclared variable '" ++ sym ++ bs "'.")
+               else ret tt) ;;;
+              variables_get sym).
+  Proof.
+    apply respects_get_warnings. intros w1 w2.
+    apply rel2_bind.
+    - apply respects_get. intros s t H; sim_get H.
+    - intros vs. apply rel2_bind.
+      + apply noise_rel2; apply noise_if, noise_warn.
+      + intros _. apply respects_variables_get.
+  Qed.
+
+  Lemma respects_expression_term : respects (expression_term fuel rec).
+  Proof.
+    unfold expression_term.
+    repeat first [ match goal with
+                   | |- respects (bind (get enable_warnings) _) => apply respects_variable_read
+                   end
+                 | rstep ].
+  Qed.
+  Hint Extern 0 (respects (expression_term _ _)) => apply respects_expression_term : resp.
+
+  Lemma respects_parenthesized : respects (parenthesized_expression fuel rec).
+  Proof. unfold parenthesized_expression; rwalk. Qed.
+  Hint Extern 0 (respects (parenthesized_expression _ _)) => apply respects_parenthesized : resp.
+
+  Lemma respects_unary_operator : respects (unary_operator fuel rec).
+  Proof. unfold unary_operator; rwalk. Qed.
+
+  Lemma respects_tier {O} (g : M (option O)) (operand : M value) (ap : O -> value -> value -> M value) :
+    respects g -> respects operand -> (forall o a b, respects (ap o a b)) ->
+    respects (tier fuel g operand ap).
+  Proof. intros Hg Ho Ha. unfold tier; rwalk. Qed.
+
+  Lemma respects_accept_as {O} t (o : O) : respects (accept_as t o).
+  Proof. unfold accept_as; rwalk. Qed.
+
+  Lemma respects_logical_or : respects (logical_or_expression fuel rec).
+  Proof.
+    unfold logical_or_expression, logical_and_expression, equality_expression,
+      plus_or_minus_expression, multiply_or_divide_expression, exponent_expression.
+    repeat (apply respects_tier;
+            [ first [apply respects_accept_as | apply respects_try] | | intros; resp_leaf ]).
+    apply respects_unary_operator.
+  Qed.
+End Expr.
+
+Theorem respects_evaluate_expression fuel : forall n, respects (evaluate_expression fuel n).
+Proof.
+  induction fuel as [|k IH]; intros n; cbn [evaluate_expression].
+  - apply respects_out_of_fuel.
+  - destruct (Nat.eqb n max_nesting); [apply respects_fail|].
+    apply respects_logical_or; apply IH.
+Qed.
+#[global] Hint Extern 0 (respects (evaluate_expression _ _)) => apply respects_evaluate_expression : resp.
+
+(* ------------------------------------------------------------------ *)
+(* Statements *)
+
+(* the trace block at the head of every statement is noise *)
+Definition trace_block (tr : bool) : M unit :=
+  if tr then
+    l <- get_line_number ;;
+    match l with Some n => push_output (OTrace n) | None => ret tt end
+  else ret tt.
+
+Lemma noise_trace_block tr : noise (trace_block tr).
+Proof.
+  intros s. unfold trace_block, get_line_number, push_output, bind, get, modify, ret.
+  destruct tr; cbn [fst snd]; [|split; [reflexivity|apply sim_refl]].
+  destruct (loc_line (loc s)) as [n|]; cbn [fst snd].
+  - split; [reflexivity|]. apply sim_push_noise. reflexivity.
+  - split; [reflexivity|apply sim_refl].
+Qed.
+
+Section Stmt.
+  Variable fuel : nat.
+  Variable nest : nat.
+  Variable rec : M unit.
+  Hypothesis Hrec : respects rec.
+
+  Hint Extern 0 (respects (evaluate_array_index _ _)) =>
+    apply respects_array_index; apply respects_evaluate_expression : resp.
+
+  Lemma respects_expr : respects (expr fuel nest).
+  Proof. unfold expr; apply respects_evaluate_expression. Qed.
+  Hint Extern 0 (respects (expr _ _)) => apply respects_expr : resp.
+
+  Lemma respects_optional_index : respects (parse_optional_array_index fuel nest).
+  Proof. unfold parse_optional_array_index; rwalk. Qed.
+  Hint Extern 0 (respects (parse_optional_array_index _ _)) => apply respects_optional_index : resp.
+
+  Lemma respects_await : respects rewind_program_and_await_input.
+  Proof. unfold rewind_program_and_await_input; rwalk. Qed.
+  Hint Extern 0 (respects rewind_program_and_await_input) => apply respects_await : resp.
+
+  Lemma respects_break : respects break_at_current_location.
+  Proof. unfold break_at_current_location; rwalk. Qed.
+  Hint Extern 0 (respects break_at_current_location) => apply respects_break : resp.
+
+  Lemma respects_goto_stmt : respects evaluate_goto_statement.
+  Proof. unfold evaluate_goto_statement; rwalk. Qed.
+  Hint Extern 0 (respects evaluate_goto_statement) => apply respects_goto_stmt : resp.
+
+  Lemma respects_gosub_stmt : respects evaluate_gosub_statement.
+  Proof. unfold evaluate_gosub_statement; rwalk. Qed.
+  Hint Extern 0 (respects evaluate_gosub_statement) => apply respects_gosub_stmt : resp.
+
+  Lemma respects_stmt_or_goto : respects (statement_or_goto_line_number rec).
+  Proof. unfold statement_or_goto_line_number; rwalk. Qed.
+  Hint Extern 0 (respects (statement_or_goto_line_number _)) => apply respects_stmt_or_goto : resp.
+
+  Lemma respects_if : respects (evaluate_if_statement fuel nest rec).
+  Proof. unfold evaluate_if_statement; rwalk. Qed.
+  Hint Extern 0 (respects (evaluate_if_statement _ _ _)) => apply respects_if : resp.
+
+  Lemma respects_assign lv v : respects (assign_value lv v).
+  Proof. unfold assign_value; rwalk. Qed.
+  Hint Extern 0 (respects (assign_value _ _)) => apply respects_assign : resp.
+
+  Lemma respects_assignment sym : respects (evaluate_assignment_statement fuel nest sym).
+  Proof. unfold evaluate_assignment_statement; rwalk. Qed.
+  Hint Extern 0 (respects (evaluate_assignment_statement _ _ _)) => apply respects_assignment : resp.
+
+  Lemma respects_let : respects (evaluate_let_statement fuel nest).
+  Proof. unfold evaluate_let_statement; rwalk. Qed.
+  Hint Extern 0 (respects (evaluate_let_statement _ _)) => apply respects_let : resp.
+
+  Lemma respects_parse_lvalue : respects (parse_lvalue fuel nest).
+  Proof. unfold parse_lvalue; rwalk. Qed.
+  Hint Extern 0 (respects (parse_lvalue _ _)) => apply respects_parse_lvalue : resp.
+
+  Lemma respects_read : respects (evaluate_read_statement fuel nest).
+  Proof. unfold evaluate_read_statement; rwalk. Qed.
+  Hint Extern 0 (respects (evaluate_read_statement _ _)) => apply respects_read : resp.
+
+  Lemma respects_take_input : respects take_input.
+  Proof. unfold take_input; rwalk. Qed.
+  Hint Extern 0 (respects take_input) => apply respects_take_input : resp.
+
+  Lemma respects_input : respects (evaluate_input_statement fuel nest).
+  Proof. unfold evaluate_input_statement; rwalk. Qed.
+  Hint Extern 0 (respects (evaluate_input_statement _ _)) => apply respects_input : resp.
+
+  Lemma respects_dim : respects (evaluate_dim_statement fuel nest).
+  Proof. unfold evaluate_dim_statement; rwalk. Qed.
+  Hint Extern 0 (respects (evaluate_dim_statement _ _)) => apply respects_dim : resp.
+
+  Lemma respects_print : respects (evaluate_print_statement fuel nest).
+  Proof. unfold evaluate_print_statement; rwalk. Qed.
+  Hint Extern 0 (respects (evaluate_print_statement _ _)) => apply respects_print : resp.
+
+  Lemma respects_for : respects (evaluate_for_statement fuel nest).
+  Proof. unfold evaluate_for_statement; rwalk. Qed.
+  Hint Extern 0 (respects (evaluate_for_statement _ _)) => apply respects_for : resp.
+
+  Lemma respects_next_stmt : respects evaluate_next_statement.
+  Proof. unfold evaluate_next_statement; rwalk. Qed.
+  Hint Extern 0 (respects evaluate_next_statement) => apply respects_next_stmt : resp.
+
+  Lemma respects_def : respects (evaluate_def_statement fuel).
+  Proof. unfold evaluate_def_statement; rwalk. Qed.
+  Hint Extern 0 (respects (evaluate_def_statement _)) => apply respects_def : resp.
+
+  Lemma respects_statement_body : respects (evaluate_statement_body fuel nest rec).
+  Proof.
+    unfold evaluate_statement_body.
+    apply respects_get_tracing. intros tr1 tr2.
+    apply rel2_bind.
+    - apply (noise_rel2 (trace_block tr1) (trace_block tr2)); apply noise_trace_block.
+    - intros _. match goal with |- rel2 ?m ?m => change (respects m) end. rwalk.
+  Qed.
+End Stmt.
+
+Theorem respects_evaluate_statement fuel : forall n, respects (evaluate_statement fuel n).
+Proof.
+  induction fuel as [|k IH]; intros n; cbn [evaluate_statement].
+  - apply respects_out_of_fuel.
+  - destruct (Nat.eqb n max_nesting); [apply respects_fail|].
+    apply respects_statement_body; apply IH.
+Qed.
+#[global] Hint Extern 0 (respects (evaluate_statement _ _)) => apply respects_evaluate_statement : resp.
+
+(* ------------------------------------------------------------------ *)
+(* Interp.v: the host API *)
+
+Theorem respects_run_next_statement fuel : respects (run_next_statement fuel).
+Proof. unfold run_next_statement, return_to_idle_state; rwalk. Qed.
+#[global] Hint Extern 0 (respects (run_next_statement _)) => apply respects_run_next_statement : resp.
+
+Lemma respects_list_lines :
+  respects (fun s => (list_lines (st_keys s) (st_toks s), s)).
+Proof. intros s t H. cbn [fst snd]. sim_rw H. split; [reflexivity|exact H]. Qed.
+
+(* TRACE / NOTRACE write only [enable_tracing], which [sim] does not compare *)
+Theorem respects_process_command fuel c : respects (process_command fuel c).
+Proof.
+  destruct c; cbn [process_command].
+  - rwalk.
+  - apply respects_bind; [apply respects_list_lines|intros ls].
+    apply respects_modify. intros s t H. apply sim_push_both; exact H.
+  - rwalk.
+  - rwalk.
+  - apply respects_modify. intros s t H. apply sim_set_flags; exact H.
+  - apply respects_modify. intros s t H. apply sim_set_flags; exact H.
+  - rwalk.
+  - rwalk.
+Qed.
+#[global] Hint Extern 0 (respects (process_command _ _)) => apply respects_process_command : resp.
+
+Lemma postprocess_sim {A} (r1 r2 : res A * interp) :
+  fst r1 = fst r2 -> sim (snd r1) (snd r2) ->
+  fst (postprocess r1) = fst (postprocess r2) /\ sim (snd (postprocess r1)) (snd (postprocess r2)).
+Proof.
+  destruct r1 as [[a|e l|p| |] s1]; destruct r2 as [[a'|e' l'|p'| |] t1];
+    cbn [fst snd postprocess]; intros E S; try discriminate E;
+    try (split; [exact E|exact S]).
+  injection E as -> ->. rewrite (populate_error_location_sim e' l' s1 t1 S).
+  split; [reflexivity|apply sim_set_state; exact S].
+Qed.
+
+Lemma respects_postprocess {A} (m : M A) : respects m -> respects (fun s => postprocess (m s)).
+Proof. intros Hm s t H. destruct (Hm s t H) as [E S]. apply postprocess_sim; assumption. Qed.
+
+Lemma respects_evaluate_impl fuel line : respects (evaluate_impl fuel line).
+Proof. unfold evaluate_impl; rwalk. Qed.
+
+Theorem respects_start_evaluating fuel line : respects (start_evaluating fuel line).
+Proof. unfold start_evaluating. apply respects_postprocess, respects_evaluate_impl. Qed.
+
+Theorem respects_continue_evaluating fuel : respects (continue_evaluating fuel).
+Proof.
+  intros s t H. unfold continue_evaluating. sim_rw H.
+  destruct (state s); try (split; [reflexivity|exact H]).
+  apply (respects_postprocess _ (respects_run_next_statement fuel)); exact H.
+Qed.
+
+Theorem respects_provide_input text : respects (provide_input text).
+Proof.
+  intros s t H. unfold provide_input. sim_rw H.
+  destruct (state s); cbn [fst snd]; try (split; [reflexivity|exact H]).
+  split; [reflexivity|]. apply sim_set_state, sim_set_input; exact H.
+Qed.
+
+Theorem respects_host_break : respects host_break.
+Proof. unfold host_break; apply respects_break. Qed.
+
+Theorem respects_randomize n : respects (randomize n).
+Proof. unfold randomize; rwalk. Qed.
+
+(* ------------------------------------------------------------------ *)
+(* Step level.  [step] renders a row of text; [call_obs] is [step] before
+   rendering: the result, the drained output queue and the state. *)
+
+Definition op_line (op : hostop) : option bytes :=
+  match op with HLine text => Some text | _ => None end.
+
+Definition outputs_text (outs : list output) : bytes := join [59%N] (map canon_output outs).
+Definition erased_outputs_text (outs : list output) : bytes :=
+  join [59%N] (map canon_output (erase outs)).
+
+Definition outcome_text (r : res unit) : bytes :=
+  match r with
+  | Ok _ => bs "ok"
+  | Err e l => bs "err:" ++ debug_error e ++ [64%N]
+               ++ (match l with None => bs "none" | Some l => show_location l end)
+  | Panic p => bs "panic:" ++ show_panic p
+  | OutOfFuel => bs "MODEL-OUT-OF-FUEL"
+  | OracleMiss => bs "MODEL-ORACLE-MISS"
+  end.
+
+Definition caret_text (r : res unit) (line : option bytes) (s1 : interp) : bytes :=
+  match r with
+  | Err e l => match render_caret e l line s1 with
+               | Ok ls => join [59%N] (map esc ls)
+               | _ => bs "PANIC"
+               end
+  | _ => []
+  end.
+
+Definition msg_text (r : res unit) : bytes :=
+  match r with Err e l => esc (display_error e l) | _ => [] end.
+
+Definition render_row (r : res unit) (line : option bytes) (outs : list output) (s1 : interp) : row :=
+  mkrow (outcome_text r) (show_state (state s1)) (outputs_text outs) (caret_text r line s1)
+        (msg_text r) (show_nat (reads s1)) (canon_snapshot s1).
+
+Lemma make_row_render r line s :
+  make_row r line s = (render_row r line (outputs s) (set_outputs [] s), set_outputs [] s).
+Proof. reflexivity. Qed.
+
+Definition pack (x : res unit * interp) : option (res unit * list output * interp) :=
+  let '(r, s1) := x in Some (r, outputs s1, set_outputs [] s1).
+
+Definition call_obs (fuel : nat) (s : interp) (op : hostop)
+  : option (res unit * list output * interp) :=
+  if negb (legal s op) then None
+  else
+    let s0 := set_reads 0 s in
+    match op with
+    | HLine text => pack (start_evaluating fuel text s0)
+    | HCont => pack (continue_evaluating fuel s0)
+    | HReply text => pack (provide_input text s0)
+    | HBreak => pack (host_break s0)
+    | HRand seed => pack (randomize seed s0)
+    | HReplace => pack (Ok tt, fresh (pow_oracle s))
+    | HFlags _ _ => None
+    | HNew => None
+    end.
+
+(* the state after an operation that prints no row *)
+Definition silent_step (s : interp) (op : hostop) : interp :=
+  if legal s op then
+    match op with
+    | HFlags w t => set_flags w t s
+    | HNew => fresh (pow_oracle s)
+    | _ => s
+    end
+  else s.
+
+(* [step] = [call_obs] followed by rendering *)
+Theorem step_is_call_obs fuel s op :
+  step fuel s op =
+  match call_obs fuel s op with
+  | Some (r, outs, s') => (Some (render_row r (op_line op) outs s'), s')
+  | None => (None, silent_step s op)
+  end.
+Proof.
+  unfold step, call_obs, silent_step. destruct (legal s op) eqn:Hl; cbn [negb]; [|reflexivity].
+  destruct op as [text| |text| |seed| |w b|]; cbn [op_line].
+  - destruct (start_evaluating fuel text (set_reads 0 s)) as [r s1].
+    rewrite make_row_render. reflexivity.
+  - destruct (continue_evaluating fuel (set_reads 0 s)) as [r s1].
+    rewrite make_row_render. reflexivity.
+  - destruct (provide_input text (set_reads 0 s)) as [r s1].
+    rewrite make_row_render. reflexivity.
+  - destruct (host_break (set_reads 0 s)) as [r s1].
+    rewrite make_row_render. reflexivity.
+  - destruct (randomize seed (set_reads 0 s)) as [r s1].
+    rewrite make_row_render. reflexivity.
+  - rewrite make_row_render. reflexivity.
+  - reflexivity.
+  - reflexivity.
+Qed.
+
+Definition obs_rel (a b : option (res unit * list output * interp)) : Prop :=
+  match a, b with
+  | Some (r1, o1, s1), Some (r2, o2, s2) => r1 = r2 /\ erase o1 = erase o2 /\ sim s1 s2
+  | None, None => True
+  | _, _ => False
+  end.
+
+(* the two runs perform the same operations, except that flag settings may
+   carry different booleans *)
+Inductive op_match : hostop -> hostop -> Prop :=
+| om_same op : op_match op op
+| om_flags w1 b1 w2 b2 : op_match (HFlags w1 b1) (HFlags w2 b2).
+
+Definition ops_match : list hostop -> list hostop -> Prop := Forall2 op_match.
+
+Lemma ops_match_refl ops : ops_match ops ops.
+Proof. induction ops; constructor; [apply om_same|assumption]. Qed.
+
+Theorem legal_sim s t op : sim s t -> legal s op = legal t op.
+Proof. intros H. unfold legal. sim_rw H. reflexivity. Qed.
+
+Lemma legal_match s t op1 op2 : sim s t -> op_match op1 op2 -> legal s op1 = legal t op2.
+Proof. intros H [op|w1 b1 w2 b2]; [apply legal_sim; exact H|reflexivity]. Qed.
+
+Lemma pack_sim (m : M unit) s t :
+  respects m -> sim s t -> obs_rel (pack (m s)) (pack (m t)).
+Proof.
+  intros Hm H. destruct (Hm s t H) as [E S].
+  destruct (m s) as [r1 s1]; destruct (m t) as [r2 t1]; cbn [fst snd pack obs_rel] in *.
+  split; [exact E|]. split; [exact (sim_outputs _ _ S)|].
+  apply sim_set_outputs; [exact S|reflexivity].
+Qed.
+
+Lemma fresh_sim s t : sim s t -> fresh (pow_oracle s) = fresh (pow_oracle t).
+Proof. intros H. sim_rw H. reflexivity. Qed.
+
+Theorem call_obs_sim fuel s t op :
+  sim s t -> obs_rel (call_obs fuel s op) (call_obs fuel t op).
+Proof.
+  intros H. unfold call_obs. rewrite <- (legal_sim s t op H).
+  destruct (legal s op); cbn [negb]; [|exact I].
+  pose proof (sim_set_reads 0 s t H) as H0.
+  destruct op as [text| |text| |seed| |w b|].
+  - apply pack_sim; [apply respects_start_evaluating|exact H0].
+  - apply pack_sim; [apply respects_continue_evaluating|exact H0].
+  - apply pack_sim; [apply respects_provide_input|exact H0].
+  - apply pack_sim; [apply respects_host_break|exact H0].
+  - apply pack_sim; [apply respects_randomize|exact H0].
+  - rewrite <- (fresh_sim s t H). cbn [pack obs_rel].
+    split; [reflexivity|]. split; [reflexivity|apply sim_refl].
+  - exact I.
+  - exact I.
+Qed.
+
+Theorem call_obs_match fuel s t op1 op2 :
+  sim s t -> op_match op1 op2 -> obs_rel (call_obs fuel s op1) (call_obs fuel t op2).
+Proof.
+  intros H [op|w1 b1 w2 b2]; [apply call_obs_sim; exact H|].
+  unfold call_obs. cbn [legal negb]. exact I.
+Qed.
+
+Lemma silent_step_sim s t op1 op2 :
+  sim s t -> op_match op1 op2 -> sim (silent_step s op1) (silent_step t op2).
+Proof.
+  intros H Hm. unfold silent_step. rewrite <- (legal_match s t op1 op2 H Hm).
+  destruct (legal s op1); [|exact H].
+  destruct Hm as [op|w1 b1 w2 b2].
+  - destruct op; try exact H.
+    + apply sim_set_flags; exact H.
+    + rewrite <- (fresh_sim s t H). apply sim_refl.
+  - apply sim_set_flags; exact H.
+Qed.
+
+(* the state after a step: related again, whatever flags were just set *)
+Theorem step_state_match fuel s t op1 op2 :
+  sim s t -> op_match op1 op2 -> sim (snd (step fuel s op1)) (snd (step fuel t op2)).
+Proof.
+  intros H Hm. rewrite !step_is_call_obs.
+  pose proof (call_obs_match fuel s t op1 op2 H Hm) as Ho.
+  destruct (call_obs fuel s op1) as [[[r1 o1] s1]|]; destruct (call_obs fuel t op2) as [[[r2 o2] t1]|];
+    cbn [obs_rel snd] in *; try contradiction.
+  - tauto.
+  - apply silent_step_sim; assumption.
+Qed.
+
+Theorem step_state_sim fuel s t op :
+  sim s t -> sim (snd (step fuel s op)) (snd (step fuel t op)).
+Proof. intros H. apply step_state_match; [exact H|apply om_same]. Qed.
+
+Theorem step_flags_sim fuel s t w1 b1 w2 b2 :
+  sim s t -> sim (snd (step fuel s (HFlags w1 b1))) (snd (step fuel t (HFlags w2 b2))).
+Proof. intros H. apply step_state_match; [exact H|apply om_flags]. Qed.
+
+(* ---- rows ---- *)
+
+Lemma render_caret_sim e l line s t : sim s t -> render_caret e l line s = render_caret e l line t.
+Proof.
+  intros H. unfold render_caret, program_caret, tokens_for_line. sim_rw H. reflexivity.
+Qed.
+
+(* two rows agree on everything C17 talks about: outcome (result, error and
+   its location), interpreter state (input requests), caret, message, reads,
+   and the outputs once Trace/Warning records are erased *)
+Definition row_agree (a b : row) : Prop :=
+  r_outcome a = r_outcome b /\ r_state a = r_state b /\ r_caret a = r_caret b
+  /\ r_msg a = r_msg b /\ r_reads a = r_reads b
+  /\ exists o1 o2, r_outputs a = outputs_text o1 /\ r_outputs b = outputs_text o2
+                   /\ erase o1 = erase o2.
+
+Definition obs_agree (a b : option row) : Prop :=
+  match a, b with
+  | Some x, Some y => row_agree x y
+  | None, None => True
+  | _, _ => False
+  end.
+
+Lemma erased_text_agree o1 o2 : erase o1 = erase o2 -> erased_outputs_text o1 = erased_outputs_text o2.
+Proof. unfold erased_outputs_text; intros ->; reflexivity. Qed.
+
+Lemma render_row_agree r line o1 o2 s1 s2 :
+  erase o1 = erase o2 -> sim s1 s2 -> row_agree (render_row r line o1 s1) (render_row r line o2 s2).
+Proof.
+  intros Ho H. unfold row_agree, render_row; cbn [r_outcome r_state r_caret r_msg r_reads r_outputs].
+  repeat split.
+  - rewrite (sim_state _ _ H); reflexivity.
+  - unfold caret_text. destruct r as [u|e l|p| |]; try reflexivity.
+    rewrite (render_caret_sim e l line s1 s2 H). reflexivity.
+  - rewrite (sim_reads _ _ H); reflexivity.
+  - exists o1, o2. repeat split. exact Ho.
+Qed.
+
+(* the snapshot text is the same too whenever the flags themselves are *)
+Lemma canon_snapshot_sim s t :
+  sim s t -> enable_warnings s = enable_warnings t -> enable_tracing s = enable_tracing t ->
+  canon_snapshot s = canon_snapshot t.
+Proof. intros H Hw Ht. unfold canon_snapshot. sim_rw H. rewrite Hw, Ht. reflexivity. Qed.
+
+Theorem step_row_match fuel s t op1 op2 :
+  sim s t -> op_match op1 op2 -> obs_agree (fst (step fuel s op1)) (fst (step fuel t op2)).
+Proof.
+  intros H Hm. rewrite !step_is_call_obs.
+  pose proof (call_obs_match fuel s t op1 op2 H Hm) as Ho.
+  assert (Hline : op_line op1 = op_line op2) by (destruct Hm; reflexivity).
+  destruct (call_obs fuel s op1) as [[[r1 o1] s1]|]; destruct (call_obs fuel t op2) as [[[r2 o2] t1]|];
+    cbn [obs_rel fst obs_agree] in *; try contradiction; [|exact I].
+  destruct Ho as (-> & Hout & Hs). rewrite Hline. apply render_row_agree; assumption.
+Qed.
+
+Theorem step_row_sim fuel s t op :
+  sim s t -> obs_agree (fst (step fuel s op)) (fst (step fuel t op)).
+Proof. intros H. apply step_row_match; [exact H|apply om_same]. Qed.
+
+(* ------------------------------------------------------------------ *)
+(* History level *)
+
+Definition observe (fuel : nat) (s : interp) (ops : list hostop) : list (option row) :=
+  run_ops fuel s ops.
+
+Lemma observe_cons fuel s op ops :
+  observe fuel s (op :: ops) = fst (step fuel s op) :: observe fuel (snd (step fuel s op)) ops.
+Proof. unfold observe; cbn [run_ops]. destruct (step fuel s op); reflexivity. Qed.
+
+Fixpoint observe_calls (fuel : nat) (s : interp) (ops : list hostop)
+  : list (option (res unit * list output * interp)) :=
+  match ops with
+  | [] => []
+  | op :: r => call_obs fuel s op :: observe_calls fuel (snd (step fuel s op)) r
+  end.
+
+Theorem C17_transparent_history : forall fuel ops1 ops2 s t,
+  ops_match ops1 ops2 -> sim s t ->
+  Forall2 obs_agree (observe fuel s ops1) (observe fuel t ops2)
+  /\ sim (run_state fuel s ops1) (run_state fuel t ops2).
+Proof.
+  intros fuel ops1 ops2 s t Hm. revert s t.
+  induction Hm as [|op1 op2 r1 r2 Hop Hr IH]; intros s t H.
+  - split; [constructor|exact H].
+  - rewrite !observe_cons. cbn [run_state].
+    pose proof (step_state_match fuel s t op1 op2 H Hop) as H'.
+    destruct (IH _ _ H') as [IH1 IH2].
+    split; [|exact IH2]. constructor; [|exact IH1].
+    apply step_row_match; assumption.
+Qed.
+
+(* the same, before rendering *)
+Theorem C17_transparent_calls : forall fuel ops1 ops2 s t,
+  ops_match ops1 ops2 -> sim s t ->
+  Forall2 obs_rel (observe_calls fuel s ops1) (observe_calls fuel t ops2).
+Proof.
+  intros fuel ops1 ops2 s t Hm. revert s t.
+  induction Hm as [|op1 op2 r1 r2 Hop Hr IH]; intros s t H; cbn [observe_calls]; constructor.
+  - apply call_obs_match; assumption.
+  - apply IH. apply step_state_match; assumption.
+Qed.
+
+(* The four configurations: one session, run from a fresh interpreter with
+   any two initial flag settings. *)
+Corollary C17_four_configurations fuel oracle w1 b1 w2 b2 ops :
+  Forall2 obs_agree (observe fuel (fresh oracle) (HFlags w1 b1 :: ops))
+                    (observe fuel (fresh oracle) (HFlags w2 b2 :: ops))
+  /\ sim (run_state fuel (fresh oracle) (HFlags w1 b1 :: ops))
+         (run_state fuel (fresh oracle) (HFlags w2 b2 :: ops)).
+Proof.
+  apply C17_transparent_history; [|apply sim_refl].
+  constructor; [apply om_flags|apply ops_match_refl].
+Qed.
+
+(* ------------------------------------------------------------------ *)
+(* TRACE / NOTRACE change the tracing flag and nothing else *)
+
+Theorem trace_cmds_only_flag fuel s :
+  state s = Idle ->
+  let r1 := start_evaluating fuel (bs "TRACE") s in
+  let r2 := start_evaluating fuel (bs "NOTRACE") s in
+  fst r1 = Ok tt /\ fst r2 = Ok tt
+  /\ sim (snd r1) (snd r2)
+  /\ enable_tracing (snd r1) = true /\ enable_tracing (snd r2) = false
+  /\ enable_warnings (snd r1) = enable_warnings s /\ enable_warnings (snd r2) = enable_warnings s.
+Proof.
+  intros Hidle. cbv zeta. unfold start_evaluating, evaluate_impl.
+  rewrite !bind_get, Hidle. rewrite set_imm_is_modify, !bind_modify.
+  assert (E1 : command_of (bs "TRACE") = Some CTrace) by (vm_compute; reflexivity).
+  assert (E2 : command_of (bs "NOTRACE") = Some CNoTrace) by (vm_compute; reflexivity).
+  rewrite E1, E2. cbn [process_command]. unfold modify; cbn [postprocess fst snd].
+  set (s0 := imm_reset [] s).
+  assert (Hw : enable_warnings s0 = enable_warnings s).
+  { unfold s0, imm_reset. destruct (breakpoint s); reflexivity. }
+  repeat split; try reflexivity; try exact Hw.
+  apply sim_set_flags, sim_refl.
+Qed.
